@@ -1,6 +1,6 @@
 (** C07: -noast parsers accept the same language and feed captures to inline actions. *)
 From PegV Require Import Base.Tac Spec.Syntax Spec.Peg Spec.WF Model.Machine Model.Runtime Model.Optimize Model.Gen
-  Model.Analyses Model.Emit Model.SEmit Model.Exec Proofs.OptSound Proofs.Top Proofs.OptTop Proofs.SEmitFile Properties.Example.
+  Model.Analyses Model.Emit Model.SEmit Model.Exec Proofs.OptSound Proofs.Top Proofs.OptTop Proofs.SEmitFile Proofs.EmitUse Proofs.DeepDefault Proofs.CountInline Proofs.OptClosed Properties.Example.
 Local Open Scope nat_scope.
 
 (** A parser generated with -noast (with any -inline decision; with -switch the grammar term is the
@@ -52,6 +52,21 @@ Theorem C07_generated_code_noast_every_execution :
 Proof. exact generated_code_noast_every. Qed.
 Print Assumptions C07_generated_code_noast_every_execution.
 
+(** ... with the emitter's fuel condition discharged for every grammar whose references are defined and whose choices
+    have two alternatives or more (what the front end builds), under either -inline setting (Proofs/CountInline.v) *)
+Theorem C07_generated_code_noast_all_options :
+  forall g ptx buf penv, good_grammar g -> good_buf buf -> good_switches g -> grammar_alt2 g -> closed_names g ->
+  forall inline n r st0 rr,
+    (forall rb, nth_error g ptx = Some rb -> rb = RNil) ->
+    o_inline (mk_opts false false inline g) r = false -> reached (count_rules g) r = true ->
+    peg_parse g ptx buf penv (S n) r = Some rr ->
+    forall res, xcall buf penv (mk_opts false false inline g) (gen_fn_noast g ptx inline) r (reset st0) res ->
+      exists st', res = Ret (match fst rr with Fail => false | Succ _ _ => true end) st' /\
+        alog st' = execute g ptx (snd rr) (text st0) /\
+        match fst rr with Succ p _ => pos st' = p /\ p <= length buf | Fail => True end.
+Proof. exact generated_code_noast_all_options. Qed.
+Print Assumptions C07_generated_code_noast_all_options.
+
 (** -noast together with -switch: the -noast parser of the optimised tree terminates with the verdict
     and the consumed prefix of the PEG semantics of the ORIGINAL tree - the language of the default
     parser (C01) - for every grammar with a well-formedness certificate and a consistent analysis table,
@@ -86,6 +101,25 @@ Theorem C07_noast_switch_language_unconditional :
       match res with Succ p _ => pos st' = p /\ p <= length buf | Fail => True end.
 Proof. exact c07_noast_switch_strong. Qed.
 Print Assumptions C07_noast_switch_language_unconditional.
+
+(** ... and for the statements of the -noast file generated from the optimised tree (-noast -switch, either -inline
+    setting), with no side condition on the analysis, the optimised tree or the emitter: every execution of the entry's
+    function returns the verdict and the offset of the semantics of the ORIGINAL tree (Proofs/OptClosed.v). *)
+Theorem C07_generated_code_noast_switch :
+  forall g tab rank, wf_b g tab rank = true -> good_grammar g ->
+  (forall r b, nth_error g r = Some (RBody b) -> ranges_ok b = true) ->
+  grammar_alt2 g -> closed_names g ->
+  forall ptx buf penv, good_buf buf -> valid_buf buf ->
+  forall inline r rb st0,
+    (forall rb0, nth_error (optimize g) ptx = Some rb0 -> rb0 = RNil) ->
+    nth_error g r = Some rb -> rb <> RNil ->
+    o_inline (mk_opts false false inline (optimize g)) r = false -> reached (count_rules (optimize g)) r = true ->
+    exists n res evs, peg_parse g ptx buf penv n r = Some (res, evs) /\
+      forall out, xcall buf penv (mk_opts false false inline (optimize g)) (gen_fn_noast (optimize g) ptx inline) r (reset st0) out ->
+        exists st', out = Ret (match res with Fail => false | Succ _ _ => true end) st' /\
+          match res with Succ p _ => pos st' = p /\ p <= length buf | Fail => True end.
+Proof. exact generated_code_noast_switch_all_options. Qed.
+Print Assumptions C07_generated_code_noast_switch.
 
 (** non-vacuity: on "aby" the action of the abandoned first alternative R1 'x' DOES run inline
     (three times in all: once per attempt of R1), each time with text = [0,2) *)
